@@ -21,6 +21,35 @@ CLAIMED = {
              'relative to the iteration order of the input containers.',
         technique='Lean 4 proof over hand-written model + differential correspondence with real sort_ex',
     ),
+
+    'C05': dict(
+        category='proof',
+        text='Lean theorems over a storage machine transcribed from pgsql/delta.py + types.py: for every guarded DDL '
+             'history catalog ≈ layout(schema) (C05_tracks), no backend error, rename is the identity on the catalog, '
+             'no live storage dropped, empty schema ⇒ empty catalog; the three unguarded steps are real defects '
+             '(counterexample theorems + known findings). Tie: every generated DDL statement goes through the REAL '
+             'pg_delta.CommandMeta.adapt/apply; the dbops tree is replayed on an abstract catalog and compared with the '
+             'model and with the real get_pointer_storage_info/has_table of the resulting schema.',
+        design_ref='§4 C05, §7',
+        note='Model hand-written (flat inheritance; one DDL statement is expanded into elementary changes by diffing the '
+             'real schema abstraction). No PostgreSQL: dbops→SQL text→server is outside. Column types/constraints not '
+             'in the catalog abstraction.',
+        technique='Lean 4 invariant proof over storage machine + differential replay of real pgsql delta command trees',
+    ),
+    'C06': dict(
+        category='proof',
+        text='Soundness theorems (cartesian/union/max/min/coalesce/typemod/filter/limit/distinct/for/if-else) about '
+             'definitions GENERATED from cardinality.py/multiplicity.py/qltypes.py on every run by a Python-AST→Lean '
+             'translator; MiniQL calculus with bag semantics transcribing toy_eval_model and inferCard/inferMult '
+             'transcribing the __infer_* rules: C06_card_partial / C06_mult_partial with the exact side conditions, and '
+             'decide-checked counterexamples for the nine ways the real compiler is unsound (known findings, replayed '
+             'through the real compiler + real toy_eval_model).',
+        design_ref='§4 C06, §7',
+        note='Translator is trusted for the whitelisted Python subset (aborts outside it). Calculus, not full EdgeQL '
+             '(no GROUP/DML/shapes/inheritance). Reference semantics = toy_eval_model (named by the property); no '
+             'PostgreSQL.',
+        technique='Lean 4 proofs over definitions regenerated from source + exhaustive/level-2 differential with real compiler and toy_eval_model',
+    ),
 }
 
 NOT_YET = 'check not built yet in this round (planned in DESIGN.md §4); not claimed until its theorem and tie exist'
